@@ -1013,6 +1013,12 @@ fn mutate_text(r: &mut Rng, text: &str) -> String {
 /// parse result), otherwise in `BTreeMap` iteration order (what the printer walks).  `None`: outside the model's data
 /// (additional attributes, an entity shape that is not a record).
 fn frag_sx(f: &Fragment<RawName>, sorted: bool) -> Option<String> {
+    frag_sx_nonrec(f, sorted, &mut None)
+}
+
+/// as `frag_sx`; with `nonrec = Some(_)` an entity type whose shape is not a record literal is encoded with the empty record and its
+/// fully qualified name is pushed (in the order fmt.rs meets them: namespace order, entity-type key order)
+fn frag_sx_nonrec(f: &Fragment<RawName>, sorted: bool, nonrec: &mut Option<Vec<String>>) -> Option<String> {
     fn join(mut v: Vec<String>, sorted: bool) -> String {
         if sorted {
             v.sort();
@@ -1033,9 +1039,15 @@ fn frag_sx(f: &Fragment<RawName>, sorted: bool) -> Option<String> {
                     format!("(enum{})", choices.iter().map(|c| { let s: &str = c.as_ref(); format!(" {}", qs(s)) }).collect::<String>())
                 }
                 json_schema::EntityTypeKind::Standard(st) => {
-                    let shape = strip_annotations(&st.shape.0);
+                    let mut shape = strip_annotations(&st.shape.0);
                     if !matches!(shape, json_schema::Type::Type { ty: json_schema::TypeVariant::Record(_), .. }) {
-                        return None;
+                        match nonrec {
+                            Some(v) => {
+                                v.push(match name { None => n.to_string(), Some(ns) => format!("{ns}::{n}") });
+                                shape = json_schema::Type::Type { ty: json_schema::TypeVariant::Record(json_schema::RecordType { attributes: BTreeMap::new(), additional_attributes: false }), loc: None };
+                            }
+                            None => return None,
+                        }
                     }
                     let tags = match &st.tags {
                         None => "(notags)".to_string(),
@@ -1308,6 +1320,125 @@ fn emit_dup_lines(out: &mut Out, r: &mut Rng, case: &str, text: &str) {
     }
 }
 
+// ------------------------------------------------------------------------------------------------
+// `(sty to-cedar-checked …)`: the refusals of fmt.rs `json_schema_to_cedar_schema_str`
+// ------------------------------------------------------------------------------------------------
+
+/// the real `Fragment::to_cedarschema()`: `Ok(text)` → `(toks …)`; `Err(ToCedarSchemaSyntaxError::NameCollisions(_))` → `(err collision)`;
+/// `Err(ToCedarSchemaSyntaxError::UnconvertibleEntityTypeShape(_))` → `(err nonrecord)`
+fn emit_to_cedar_checked(out: &mut Out, case: &str, f: &Fragment<RawName>) {
+    use cedar_policy_core::validator::cedar_schema::fmt::ToCedarSchemaSyntaxError as E;
+    let mut nonrec = Some(Vec::new());
+    let Some(sx) = frag_sx_nonrec(f, false, &mut nonrec) else { return };
+    let nonrec = nonrec.unwrap_or_default();
+    let imp = match guard(|| f.to_cedarschema()) {
+        Ok(Ok(text)) => {
+            let Some(toks) = lex(&text) else {
+                out.propfail("printer output is not lexable", case, &text);
+                return;
+            };
+            format!("(toks {})", drop_annotations(toks).join(" ")).replace("(toks )", "(toks)")
+        }
+        Ok(Err(E::NameCollisions(_))) => "(err collision)".to_string(),
+        Ok(Err(E::UnconvertibleEntityTypeShape(_))) => "(err nonrecord)".to_string(),
+        Err(_) => {
+            out.propfail("to_cedarschema panicked", case, &sx);
+            return;
+        }
+    };
+    let req = format!("(sty to-cedar-checked {sx} (nonrec{}))", nonrec.iter().map(|n| format!(" {}", qs(n))).collect::<String>());
+    out.nontrivial(&format!("to-cedar-checked|{req}"));
+    out.count(&format!("model:to-cedar-checked:{}", if imp.starts_with("(toks") { "ok" } else { &imp[5..imp.len() - 1] }));
+    out.line(req, imp, format!("{case} to-cedar-checked"));
+}
+
+/// JSON fragments with an entity type and a common type of the same name (in a named / in the empty namespace; the name also
+/// referenced through `Set<…>` and a record) and with entity shapes that are not record literals
+fn clash_jsons(r: &mut Rng, j: &J) -> Vec<(&'static str, J)> {
+    fn ns_mut<'a>(j: &'a mut J, ns: &str) -> &'a mut Map<String, J> {
+        let m = j.as_object_mut().unwrap();
+        let e = m.entry(ns.to_string()).or_insert_with(|| json!({"entityTypes": {}, "actions": {}}));
+        e.as_object_mut().unwrap()
+    }
+    fn add_clash(r: &mut Rng, j: &mut J, ns: &str) {
+        let d = ns_mut(j, ns);
+        let ents: Vec<String> = d.get("entityTypes").and_then(|e| e.as_object()).map(|e| e.keys().cloned().collect()).unwrap_or_default();
+        let name = if ents.is_empty() || r.chance(20) { "Clash".to_string() } else { r.pick(&ents).clone() };
+        if let Some(e) = d.get_mut("entityTypes").and_then(|e| e.as_object_mut()) {
+            e.entry(name.clone()).or_insert_with(|| json!({}));
+        }
+        let cs = d.entry("commonTypes".to_string()).or_insert_with(|| json!({}));
+        if let Some(cs) = cs.as_object_mut() {
+            cs.insert(name.clone(), json!({"type": "Long"}));
+            match r.below(4) {
+                0 => { cs.insert("ClashRefSet".into(), json!({"type": "Set", "element": {"type": "EntityOrCommon", "name": name}})); }
+                1 => { cs.insert("ClashRefRec".into(), json!({"type": "Record", "attributes": {"a": {"type": "Entity", "name": name}, "b": {"type": "Set", "element": {"type": name}}}})); }
+                2 => {
+                    if let Some(e) = d.get_mut("entityTypes").and_then(|e| e.as_object_mut()) {
+                        e.insert("ClashUser".into(), json!({"shape": {"type": "Record", "attributes": {"a": {"type": "Set", "element": {"type": "Entity", "name": name}}}}}));
+                    }
+                }
+                _ => {}
+            }
+        }
+    }
+    fn add_nonrec(r: &mut Rng, j: &mut J, ns: &str) {
+        let d = ns_mut(j, ns);
+        let shapes = [
+            json!({"type": "Long"}), json!({"type": "String"}), json!({"type": "Set", "element": {"type": "Long"}}),
+            json!({"type": "EntityOrCommon", "name": "NonRecShape"}), json!({"type": "NonRecShape"}), json!({"type": "Extension", "name": "ipaddr"}),
+        ];
+        let shape = r.pick(&shapes).clone();
+        let cs = d.entry("commonTypes".to_string()).or_insert_with(|| json!({}));
+        if let Some(cs) = cs.as_object_mut() {
+            cs.insert("NonRecShape".into(), json!({"type": "Record", "attributes": {"x": {"type": "Long"}}}));
+        }
+        if let Some(e) = d.get_mut("entityTypes").and_then(|e| e.as_object_mut()) {
+            let std: Vec<String> = e.iter().filter(|(_, v)| v.get("enum").is_none()).map(|(k, _)| k.clone()).collect();
+            let name = if std.is_empty() || r.chance(20) { "NonRec".to_string() } else { r.pick(&std).clone() };
+            let ent = e.entry(name).or_insert_with(|| json!({}));
+            if let Some(ent) = ent.as_object_mut() {
+                ent.insert("shape".into(), shape);
+            }
+        }
+    }
+    let Some(m) = j.as_object() else { return vec![] };
+    let named: Vec<String> = m.keys().filter(|k| !k.is_empty()).cloned().collect();
+    let a_named = |r: &mut Rng| if named.is_empty() || r.chance(15) { "Clash::N".to_string() } else { r.pick(&named).clone() };
+    let any_ns = |r: &mut Rng| if r.chance(40) { String::new() } else { a_named(r) };
+    let mut res = Vec::new();
+    let mut a = j.clone();
+    let ns = a_named(r);
+    add_clash(r, &mut a, &ns);
+    res.push(("clash-named", a));
+    let mut b = j.clone();
+    add_clash(r, &mut b, "");
+    res.push(("clash-empty", b));
+    let mut c = j.clone();
+    let ns = any_ns(r);
+    add_nonrec(r, &mut c, &ns);
+    res.push(("nonrecord", c));
+    let mut d = j.clone();
+    let ns = a_named(r);
+    add_clash(r, &mut d, &ns);
+    let ns = any_ns(r);
+    add_nonrec(r, &mut d, &ns);
+    res.push(("clash-and-nonrecord", d));
+    res
+}
+
+fn emit_clash_lines(out: &mut Out, r: &mut Rng, case: &str, j: &J) {
+    for (kind, cj) in clash_jsons(r, j) {
+        match guard(|| Fragment::<RawName>::from_json_value(cj.clone())) {
+            Ok(Ok(f)) => {
+                out.count(&format!("clash_family:{kind}"));
+                emit_to_cedar_checked(out, &format!("{case} {kind} json={cj}"), &f);
+            }
+            _ => out.count(&format!("clash_family:{kind}:json-rejected")),
+        }
+    }
+}
+
 /// single-token mutations at the declaration level
 fn mutate_decl_text(r: &mut Rng, text: &str) -> String {
     let reps: &[(&str, &str)] = &[
@@ -1330,6 +1461,7 @@ fn mutate_decl_text(r: &mut Rng, text: &str) -> String {
 
 /// fragment-level model lines for one fragment (JSON side: printed and re-parsed; Cedar side: the given text and a mutation of it)
 fn emit_frag_lines(out: &mut Out, r: &mut Rng, case: &str, f: &Fragment<RawName>, text: Option<&str>) {
+    emit_to_cedar_checked(out, case, f);
     if let Some(printed) = emit_frag_print(out, case, f) {
         emit_frag_parse(out, case, &printed);
         if r.chance(30) {
@@ -1629,6 +1761,7 @@ pub fn run(args: &Args, out: &mut Out) {
                 emit_model_lines(out, &mut r, &cname, &f, &[]);
                 emit_frag_lines(out, &mut r, &cname, &f, None);
             }
+            emit_clash_lines(out, &mut r, &cname, &w.json);
         } else {
             let spec = gt::gen_tspec(&mut r);
             let cname = format!("case={case} sub={sub} text {}", spec.describe());
@@ -1642,6 +1775,7 @@ pub fn run(args: &Args, out: &mut Out) {
                 emit_model_lines(out, &mut r, &cname, &f, &[]);
                 emit_frag_lines(out, &mut r, &cname, &f, None);
             }
+            emit_clash_lines(out, &mut r, &cname, &j);
             if let Ok(Ok((f, _))) = guard(|| Fragment::<RawName>::from_cedarschema_str(&t.text, ext())) {
                 check_annotations(out, &cname, &f);
                 emit_model_lines(out, &mut r, &cname, &f, &t.type_exprs);
